@@ -2,13 +2,14 @@
 Round-2 seeded changes: sub-agent output in /tmp/seed2/out/<property>/{change-j.diff,demo-j.py,notes.md} -> /verif/seeded/<property>-<k>/"""
 import json, os, shutil, sys
 pid, j, k, caught, summary, needs, note = sys.argv[1:8]
-src = f"/tmp/seed2/out/{pid}"
+import os as _os
+src = f"{_os.environ.get('SEEDROOT', '/tmp/seed2')}/out/{pid}"
 dst = f"/verif/seeded/{pid}-{k}"
 os.makedirs(dst, exist_ok=True)
 shutil.copy(f"{src}/change-{j}.diff", f"{dst}/patch.diff")
 shutil.copy(f"{src}/demo-{j}.py", f"{dst}/demo.py")
 shutil.copy(f"{src}/notes.md", f"{dst}/notes.md")
-meta = dict(property=pid, round=2, summary=summary, breaks_property=pid, needs_to_manifest=needs,
+meta = dict(property=pid, round=int(_os.environ.get("SEEDROUND", "2")), summary=summary, breaks_property=pid, needs_to_manifest=needs,
             tests_run="by the author of the change (fresh sub-agent, own worktree): full suite without -x; only the two pre-existing tests/test_plot.py failures; details in notes.md (this change is 'change %s' there)" % j,
             what_i_ran=(f"git -C /repo apply patch.diff; PYTHONPATH=/repo /venv/bin/python demo.py -> exit 1; ./check {pid} --tier quick; git -C /repo checkout -- .; "
                         "demo.py on the clean tree -> exit 0 (tools/seed_eval.sh)"),
